@@ -65,7 +65,9 @@ def load_section_plugins(entry_point_group: str) -> Tuple[SectionPlugin]:
     }
     for plugin in plugins.values():
         for before in plugin.before:
-            dependencies[before].add(plugin.section)
+            # constraints on plugins that are not installed are ignored
+            if before in dependencies:
+                dependencies[before].add(plugin.section)
     return tuple(
         plugins[plugin_name]
         for plugin_name in toposort_flatten(dependencies, sort=False)
